@@ -195,8 +195,16 @@ def createTr : Errno → Option Exc
   | .ebusy => some .busyError
   | _ => none
 
+/-- `Thread_Stop` (pthread_kill): EINVAL → ValueError, ESRCH → ValueError -/
+def stopTr : Errno → Option Exc
+  | .einval => some .valueError
+  | .esrch => some .valueError
+  | _ => none
+
 inductive PFn where
   | lock | trylock | unlock | join
+  | create   -- `pthread_create` under `Thread_Call` (extension round)
+  | stop     -- `pthread_kill` under `Thread_Stop` (extension round)
 deriving DecidableEq, Repr, Inhabited
 
 /-- operations that act on the executing thread's own component only -/
@@ -362,6 +370,15 @@ def lrun (cfg : Cfg) (t : Tid) (c : Cache) (fm : List Obj) (op : LOp) (ts : TS) 
       | some x => ({ ts with exc := caught x ts.exc }, c, .raised x)
       | none => (ts, c, .ok)
     | .join => match joinTrOf cfg e with
+      | some x => ({ ts with exc := caught x ts.exc }, c, .raised x)
+      | none => (ts, c, .ok)
+    -- `Thread_Call` whose `pthread_create` reports `e`: no thread exists, the caller's exception record takes the exception
+    -- (the raw copy of the argument tuple stays with the Thread object until `Thread_Del`; neither flag is touched)
+    | .create => match createTr e with
+      | some x => ({ ts with exc := caught x ts.exc }, c, .raised x)
+      | none => (ts, c, .ok)
+    -- `Thread_Stop` whose `pthread_kill` reports `e`
+    | .stop => match stopTr e with
       | some x => ({ ts with exc := caught x ts.exc }, c, .raised x)
       | none => (ts, c, .ok)
 
